@@ -20,7 +20,7 @@ CONTRACT is a list in META, format: FIELD[name]::constraint_chain.
 
 import re
 from dataclasses import dataclass, field
-from typing import TYPE_CHECKING
+from typing import TYPE_CHECKING, Any
 
 from octave_mcp.core.constraints import (
     AppendOnlyConstraint,
@@ -386,7 +386,7 @@ class GBNFCompiler:
         Returns:
             GBNF alternation: ("value1" | "value2" | "value3")
         """
-        escaped = [self._escape_literal(v) for v in constraint.allowed_values]
+        escaped = [self._escape_literal(self._octave_spelling(v)) for v in constraint.allowed_values]
         quoted = [f'"{v}"' for v in escaped]
         return f"({' | '.join(quoted)})"
 
@@ -399,9 +399,19 @@ class GBNFCompiler:
         Returns:
             GBNF literal: "value"
         """
-        value = str(constraint.const_value)
-        escaped = self._escape_literal(value)
+        escaped = self._escape_literal(self._octave_spelling(constraint.const_value))
         return f'"{escaped}"'
+
+    def _octave_spelling(self, value: Any) -> str:
+        """Spell a value the way the OCTAVE reader reads it back.
+
+        The grammar generates document text, so a string that a bare word would not
+        read back as (a::b, 007, 2024-01-15, the empty string) is generated quoted,
+        and true/false/null are generated as the literals rather than str(value).
+        """
+        from octave_mcp.core.emitter import emit_value
+
+        return emit_value(value)
 
     def _compile_type(self, constraint: TypeConstraint) -> str:
         """Compile TYPE constraint to appropriate GBNF pattern.
